@@ -299,6 +299,24 @@ class SymKit(KitBase):
         from .ndarray import NDArr
         return NDArr.fresh(lambda *idx: wrap(cell_fn(*idx)), tuple(wrap(d) for d in shape), "float")
 
+    def concrete_array(self, arr):
+        """nested lists of floats of an array all of whose cells are concrete (e.g. a native array carried through the analysed code)"""
+        import numpy as np
+        if isinstance(arr, np.ndarray):
+            return arr.tolist()
+        _, lst = self.lib.numpy.dense(self.I, arr, "concrete_array")
+
+        def conv(x):
+            if isinstance(x, list):
+                return [conv(y) for y in x]
+            if isinstance(x, SV):
+                t = z3.simplify(x.t)
+                if not (z3.is_rational_value(t) or z3.is_int_value(t)):
+                    raise Unsupported("concrete_array: symbolic cell")
+                return float(t.as_fraction())
+            return float(x)
+        return conv(lst)
+
     def setattr(self, obj, name, value):
         """Assign an attribute of a (lifted) repository object from the contract (construction of a symbolic state)."""
         self.I.setattr(wrap(obj), name, wrap(value), None)
@@ -864,6 +882,10 @@ class ConcKit(KitBase):
 
     def setattr(self, obj, name, value):
         setattr(obj, name, value)
+
+    def concrete_array(self, arr):
+        import numpy as np
+        return np.asarray(arr).tolist()
 
     def array_pattern(self, name, pattern):
         import numpy as np
